@@ -441,7 +441,7 @@ class BaseWorklist(list):
 
         # automatically decrease multi_disp to support the large volume
         # at the expense of more washing
-        if multi_disp * volume > self.max_volume:
+        if multi_disp * float(volume) > self.max_volume:
             logger.warning(
                 "Decreasing `multi_disp` to account for a large dispense volume. The number of washs will increase."
             )
@@ -624,7 +624,7 @@ class BaseWorklist(list):
 
         # update volume tracking first, so that a step refused by the volume checks is never emitted
         n_dst = len(dst_wells)
-        source.remove(source.wells[0, source_column], volume * n_dst, label=label)
+        source.remove(source.wells[0, source_column], float(volume) * n_dst, label=label)
         src_composition = source.get_well_composition(source.wells[0, source_column])
         destination.add(destination_wells, volume, label=label, compositions=[src_composition] * n_dst)
         if destination == source:
